@@ -175,7 +175,7 @@ def cases(ctx):
                     for prog in (loop, fwd):
                         yield {"kind": "direct", "nq": nq, "seed_prog": seed, "prog": prog, "debug": False, "load": False, "seam": True,
                                "loaded_two_qubit": False, "script": [0] * 8, "share": g1 == g2}
-    for _ in range(ctx.n(20, 1500)):
+    for j_all in range(ctx.n(40, 2500)):
         # a program that names all sixteen Q registers and has a carbon-carbon gate inside a loop: nothing is left to borrow for the
         # electron - the transpiler may refuse, it may not quietly take a register that is read again after the back-edge
         nq = rng.choice([3, 4])
@@ -186,13 +186,15 @@ def cases(ctx):
         for r in range(2, 16):
             seed.append(["set", [["Q", r], rng.randrange(nq)]])
         a, b2 = rng.sample(range(1, nq), 2)
-        order = list(range(2, 16))
+        # ... or all but one (any one of Q2..Q15): then exactly one register is free and must be found
+        spare = [None, 15, 2, 14][j_all] if j_all < 4 else rng.choice([None, None] + list(range(2, 16)))
+        order = [r for r in range(2, 16) if r != spare]
         rng.shuffle(order)
-        prog = [[rng.choice(["h", "x", "s"]), [["Q", r]]] for r in order[:rng.choice([14, 14, 13])]]     # loop body starts by reading them
+        prog = [[rng.choice(["h", "x", "s"]), [["Q", r]]] for r in order[:len(order) - 1]]     # loop body starts by reading them
         prog += [["set", [["Q", 0], a]], ["set", [["Q", 1], b2]], [rng.choice(["cnot", "cphase"]), [["Q", 0], ["Q", 1]]]]
-        prog += [[rng.choice(["h", "z"]), [["Q", r]]] for r in order[13:]]
+        prog += [[rng.choice(["h", "z"]), [["Q", r]]] for r in order[len(order) - 1:]]
         prog += [["add", [["R", 0], ["R", 0], ["C", 10]]], ["blt", [["R", 0], ["C", 0], 0]]]
-        yield {"kind": "direct", "nq": nq, "seed_prog": seed, "prog": prog, "debug": False, "load": False, "may_refuse": True,
+        yield {"kind": "direct", "nq": nq, "seed_prog": seed, "prog": prog, "debug": False, "load": False, "may_refuse": spare is None,
                "loaded_two_qubit": False, "script": [rng.randrange(2) for _ in range(8)]}
     for _ in range(ctx.n(30, 2000)):
         # the operand register of a gate inside a loop is `set` again BELOW the gate: in the second iteration it points at
